@@ -13,6 +13,7 @@ import (
 	"strconv"
 	"strings"
 	"sync"
+	"sync/atomic"
 	"testing"
 	"time"
 
@@ -170,6 +171,8 @@ func removeCurrentCase() {
 
 const hangLimit = 20 * time.Second
 
+var slowCalls atomic.Int64
+
 var (
 	replayMode bool
 	wdMu       sync.Mutex
@@ -237,8 +240,25 @@ func startWatchdog() {
 				os.Exit(3)
 			}
 			os.Remove(path)
-			fmt.Printf("INCONCLUSIVE: a call exceeded %v but the input returns in time when re-run alone:\n%s\n", limit, string(outp))
-			os.Exit(4)
+			// slow (a stalled machine), not hung: give the call ten more limits, then give up without a verdict
+			fmt.Printf("NOTE: a call exceeded %v but the input returns in time when re-run alone; waiting on\n", limit)
+			for i := 0; i < 40*int(limit/time.Second+1); i++ {
+				time.Sleep(250 * time.Millisecond)
+				wdMu.Lock()
+				still := wdArmed && wdStart.Equal(start)
+				wdMu.Unlock()
+				if !still {
+					break
+				}
+			}
+			wdMu.Lock()
+			still := wdArmed && wdStart.Equal(start)
+			wdMu.Unlock()
+			if still {
+				fmt.Printf("INCONCLUSIVE: a call exceeded %v ten times over but the input returns in time when re-run alone:\n%s\n", limit, string(outp))
+				os.Exit(4)
+			}
+			slowCalls.Add(1)
 		}
 	}()
 }
